@@ -1,1 +1,4 @@
-//! generators
+//! Generators: program IR, pretty-printer with layout knobs and site map, tape decoders.
+pub mod build;
+pub mod ir;
+pub mod print;
